@@ -31,7 +31,7 @@ from WallGo.polynomial import Polynomial
 
 from symx import core, npx
 from symx.core import AND, Cond, Sym, close, eq
-from symx.harness import HarnessDef
+from symx.harness import HarnessDef, bare
 
 EXPLANATION = __doc__
 BOUNDS = {"grids": "(M,N) in {(3,3),(4,3),(5,3)} quick; up to (8,5) thorough", "particles": "1-2",
@@ -192,6 +192,46 @@ def h_basis(h, M, N, basisM, basisN, nparticles):
                               want, rtol=0, atol=TOL * bound)
 
 
+def h_fd_twin(h, nparticles, stored):
+    """EOM.getBoltzmannFiniteDifference builds a finite-difference twin of the spectral solver: the
+    twin is in the Cardinal basis with the same collision operator, and the spectral solver it was
+    made from -- its collision data, their basis label, its own settings -- is left exactly as it
+    was (it is used again for every later pressure evaluation)."""
+    import WallGo.equationOfMotion as EOMM
+    h.patch_numeric(BZ)
+    h.patch_numeric(PM)
+    h.patch_numeric(CA)
+    grid = Grid(3, 3, 1.0, 1.0)
+    parts = particles(nparticles)
+    n = 2
+    C = h.reals("C", (nparticles, n, n, nparticles, n, n), -1, 1, strict=False)
+    layout = ("Array", "Cardinal", "Cardinal", "Array", stored, stored)
+    ca = CollisionArray.newFromPolynomial(Polynomial(C.copy(), grid, layout, CollisionArray.AXIS_TYPES,
+                                                     endpoints=False), parts)
+    bs = BZ.BoltzmannSolver(grid, basisM="Cardinal", basisN=stored, derivatives="Spectral")
+    bs.offEqParticles = parts
+    bs.collisionArray = ca
+    h.patch_always(BZ.BoltzmannSolver, getDeltas=lambda self: ("deltas of", self))
+    eom = bare(EOMM.EOM)
+    eom.boltzmannSolver = bs
+    tag, fd = eom.getBoltzmannFiniteDifference()
+    h.prove("the twin is another object with finite-difference derivatives in the Cardinal basis", Cond(
+        b=fd is not bs and fd.derivatives == "Finite Difference" and fd.basisN == "Cardinal"
+        and fd.basisM == "Cardinal" and fd.collisionArray.getBasisType() == "Cardinal"
+        and tuple(fd.collisionArray.polynomialData.basis) == ("Array", "Cardinal", "Cardinal", "Array", "Cardinal", "Cardinal")))
+    h.prove("the spectral solver keeps its settings and its collision array object", Cond(
+        b=bs.derivatives == "Spectral" and bs.basisN == stored and bs.basisM == "Cardinal" and bs.collisionArray is ca))
+    h.prove("the spectral solver's collision data keep their basis labels", Cond(
+        b=ca.getBasisType() == stored and tuple(ca.polynomialData.basis) == layout))
+    h.prove_all_eq("the spectral solver's collision data are untouched", np.asarray(ca.polynomialData.coefficients), C)
+    ref = CollisionArray.newFromPolynomial(Polynomial(C.copy(), grid, layout, CollisionArray.AXIS_TYPES,
+                                                      endpoints=False), parts)
+    ref.changeBasis("Cardinal")
+    h.prove_all_close("the twin's collision data = the same operator in the Cardinal basis",
+                      np.asarray(fd.collisionArray.polynomialData.coefficients),
+                      np.asarray(ref.polynomialData.coefficients), rtol=0, atol=TOL)
+
+
 def h_background(h):
     """setBackground works on a deep copy and boosts the wall-frame background to the plasma
     frame: velocityWall = -velocityMid, profile boosted element-wise."""
@@ -228,6 +268,9 @@ HARNESSES = [
                 dict(M=4, N=3, T0=1.0, basisM="Chebyshev", basisN="Cardinal", nparticles=1),
                 dict(M=3, N=3, T0=1.0, basisM="Cardinal", basisN="Chebyshev", nparticles=1)],
                max_paths=4, timeout_s=120, encodes=[BZ.BoltzmannSolver.getDeltas], random_validation=1),
+    HarnessDef("finite-difference-twin", h_fd_twin, [dict(nparticles=1, stored="Chebyshev"), dict(nparticles=2, stored="Cardinal")],
+               [dict(nparticles=p, stored=b) for p in (1, 2) for b in ("Chebyshev", "Cardinal")], max_paths=4, timeout_s=60,
+               encodes=[CollisionArray.changeBasis], random_validation=1),
     HarnessDef("profile-derivatives", h_derivatives, _AQ, _AT, max_paths=8, timeout_s=60,
                encodes=[BZ.BoltzmannSolver.buildLinearEquations, Polynomial.derivative,
                         Polynomial.derivMatrix], random_validation=1),
